@@ -7,11 +7,11 @@ PROPS = {
         "witness_always": ["common_scaled", "texlang_parse_num", "stdlib_totality"],
         "witness_bound": {"common_scaled": "print->scan round trip: ALL 2^16 fractions x 9 integer parts x both signs (display_no_units / parse_no_units on the real code); boundary lattices for the arithmetic functions"},
         "level": "proof",
-        "verus": ["common_scaled", "texlang_parse_int", "texlang_parse_dimen", "texlang_parse_glue", "stdlib_math"],
+        "verus": ["common_scaled", "texlang_parse_int", "texlang_parse_keyword", "texlang_parse_dimen", "texlang_parse_glue", "stdlib_math"],
         "kani": [],
         "unverified_callers": [
             "texlang-stdlib/src/the.rs (token production from the printed string)",
-            "texlang/src/parse/keyword.rs parse_keyword (str slicing: trusted oracle kw_at), <ScaledUnit as Parsable>::parse (for-loop over an array of tuples: trusted oracle unit_parsed), parse_internal_number and parse_character (trusted oracles), OptionalSpace::parse (trusted, described as 'one space token if present')",
+            "parse_internal_number and parse_character (trusted oracles); the provided method Parsable::parse (trusted to delegate to parse_impl); parse_keyword and the unit keyword are PROVED (unit texlang_parse_keyword) over two trusted std stubs: first character of a &str and the &str after it (rule R20), char::to_ascii_lowercase/uppercase",
             "TexlangState::em_width / ex_height providers",
             "`<digits><space><point>` (e.g. `1 .5pt`): TeX ends the number at the space, texcraft reads a fraction - not a constant of TeX's grammar, left open by constant_spec (DESIGN 9)",
         ],
@@ -164,7 +164,7 @@ PROPS["C02"] = {
 PROPS["C09"] = {
     "level": "proof",
     "only_kinds": ["overflow", "div-by-zero", "bounds", "precondition", "shift", "assertion", "concrete-counterexample", "kani"],
-    "verus": ["common_scaled", "texlang_parse_int", "texlang_parse_dimen", "texlang_parse_glue", "stdlib_math", "stdext_groupingmap", "stdext_kmp", "texlang_savestack", "texlang_cmdmap", "texlang_vmgroups", "stdlib_prefix", "stdlib_cond", "stdlib_expandafter", "texlang_macro", "stdlib_def"],
+    "verus": ["common_scaled", "texlang_parse_int", "texlang_parse_keyword", "texlang_parse_dimen", "texlang_parse_glue", "stdlib_math", "stdext_groupingmap", "stdext_kmp", "texlang_savestack", "texlang_cmdmap", "texlang_vmgroups", "stdlib_prefix", "stdlib_cond", "stdlib_expandafter", "texlang_macro", "stdlib_def"],
     "kani": [],
     "witness_always": ["texlang_parse_num", "stdlib_totality"],
     "witness_fns": {"texlang_parse_num": ["parse_impl", "parse_constant", "scan_dimen"]},
